@@ -798,13 +798,24 @@ def _catch(codes):
 
 def E_catchment(rng, tier):
     from hyverif.props.c06 import gen_forest, CODES
-    shapes = [(1, 1), (1, 2), (2, 1), (1, 7), (7, 1), (2, 2), (3, 3), (9, 11), (2, 8)]
+    shapes = [(1, 1), (1, 2), (2, 1), (1, 7), (7, 1), (2, 2), (3, 3), (9, 11), (2, 8), (5, 5)]
     for (nr, nc) in shapes:
-        for kind in ("forest", "random", "allsame"):
+        for kind in ("forest", "random", "allsame", "converge"):
             def thunk(nr=nr, nc=nc, kind=kind):
                 r = np.random.default_rng(nr * 100 + nc)
                 if kind == "forest":
                     codes = gen_forest(r, nr, nc, 1)
+                elif kind == "converge":
+                    # every cell drains towards one cell: that cell receives flow from
+                    # all of its (up to 8) neighbours
+                    from hyverif.oracles.flowgraph import code_for_step
+                    r0, c0 = nr // 2, nc // 2
+                    codes = np.zeros((nr, nc), dtype=np.int64)
+                    for i_ in range(nr):
+                        for j_ in range(nc):
+                            if (i_, j_) != (r0, c0):
+                                codes[i_, j_] = code_for_step(int(np.sign(r0 - i_)),
+                                                              int(np.sign(c0 - j_)))
                 elif kind == "random":
                     codes = r.choice(CODES + [5, -1, 2 ** 40], size=(nr, nc))
                 else:
